@@ -372,6 +372,78 @@ def _total_sort(call):
     return False
 
 
+def rule_start(ctx):
+    """Every sample from which seeds are collected is already listed: get_seeds(.., o, ..) computes reachabilities
+    max(core(o), d(o, .)) for o's neighbours, and the property requires o to be listed no later than any sample that
+    carries such a reachability.  Both call sites (the start sample of a cluster, and each seed picked afterwards) must
+    therefore be preceded, in the same iteration, by the insertion of o into the listed set - otherwise o is collected
+    as a seed of itself and a neighbour can be listed before it."""
+    from .layout import with_parents
+    res = RuleResult("R-C08-start", "OPTICS collects seeds only from a sample that it has already listed (marked processed) in the same iteration")
+    F = ctx.facts()
+    fns = [f for f in cl_fns(F, "optics") if f["d"]["name"] == "transform" and "OpticsAnalysis" in f["output"]]
+    if not fns:
+        res.missing_anchor("<OpticsValidParams as Transformer>::transform")
+    for fn in fns:
+        c = fn["crate"]
+        key = fn_key(fn)
+        n_sites = 0
+        for x, anc in with_parents(fn["body"]):
+            if x.get("k") != "MethodCall" or x["name"] != "get_seeds" or len(x["args"]) < 2:
+                continue
+            n_sites += 1
+            o = peel_refs(x["args"][1])
+            inst = "%s : get_seeds #%d from `%s`" % (key, n_sites, o.get("name", "?"))
+            res.instance(inst)
+            if o.get("k") != "Path" or "local" not in o:
+                res.undecided("%s : seed-source-form" % key, "the sample handed to get_seeds is not a plain local", fn_loc(fn, x["ln"]))
+                continue
+            listed = False
+            chain = list(anc) + [x]
+            for j in range(len(anc) - 1, -1, -1):
+                blk = anc[j]
+                if blk.get("k") == "Loop":
+                    break
+                if blk.get("k") != "Block":
+                    continue
+                stmts = blk["stmts"] + ([blk["e"]] if blk.get("e") else [])
+                child = chain[j + 1]
+                for st in stmts:
+                    if st is child or strip(st) is child:
+                        break
+                    for y in walk(st):
+                        if y.get("k") == "MethodCall" and y["name"] == "insert" and y["args"] and "Set<usize" in (c.ty(peel_refs(y["recv"]).get("t")) or ""):
+                            a0 = peel_refs(y["args"][0])
+                            if a0.get("k") == "Field" and a0["name"] == "index" and peel_refs(a0["e"]).get("local") == o["local"]:
+                                listed = True
+            if listed:
+                res.ok()
+            else:
+                res.violate("%s : seeds-from-unlisted-sample:%s" % (key, o.get("name")), "seeds are collected from `%s` before it is marked as listed: it becomes a seed of itself (distance 0, reachability = its own core distance), and a neighbour that wins the tie is listed before it with a reachability derived from a sample listed later" % o.get("name"), fn_loc(fn, x["ln"]))
+        if n_sites < 2:
+            res.missing_anchor("the two get_seeds call sites of OPTICS (found %d)" % n_sites)
+    return res.finish(2)
+
+
+def _total_pick(call):
+    """the comparator of a min_by / max_by compares the two elements themselves (bindings of its two parameters, which
+    are distinct sample indices) directly with `cmp` - as the whole comparison or as a then / then_with tie-break"""
+    if call["name"] not in ("min_by", "max_by") or not call["args"]:
+        return False
+    clo = strip(call["args"][0])
+    if clo.get("k") != "Closure" or len(clo["params"]) != 2:
+        return False
+    ps = [set(b["local"] for b in pat_bindings(p_)) for p_ in clo["params"]]
+    for n in walk(clo["body"]):
+        if n.get("k") == "MethodCall" and n["name"] == "cmp" and len(n["args"]) == 1:
+            a, b = peel_refs(n["recv"]), peel_refs(n["args"][0])
+            if a.get("k") == "Path" and b.get("k") == "Path":
+                la, lb = a.get("local"), b.get("local")
+                if (la in ps[0] and lb in ps[1]) or (la in ps[1] and lb in ps[0]):
+                    return True
+    return False
+
+
 def rule_tie(ctx):
     """OPTICS picks the next sample as the first seed of minimal reachability.  The seed list is filled in the order
     in which the range query returned the neighbours (sorting the neighbours by distance leaves equidistant ones in
@@ -451,11 +523,12 @@ def rule_tie(ctx):
                     for y in walk(st):
                         if y.get("k") == "MethodCall" and y["name"] in SORTS and peel_refs(y["recv"]).get("local") == rt["local"] and _total_sort(y):
                             canon = True
-            total_cmp = False
-            try:
-                total_cmp = bool(extremum_is_total(x, c))
-            except Exception:
-                total_cmp = False
+            total_cmp = _total_pick(x)
+            if not total_cmp:
+                try:
+                    total_cmp = bool(extremum_is_total(x, c))
+                except Exception:
+                    total_cmp = False
             if canon or total_cmp:
                 res.ok()
                 res.sample({"pick": inst, "canonical_order": "total sort before the pick" if canon else "tie-break in the comparison"})
@@ -468,4 +541,4 @@ def rule_tie(ctx):
 
 
 def rules(tier):
-    return [rule_core, rule_self, rule_index, rule_order, rule_once, rule_memorder, rule_tie, c07.rule_edge]
+    return [rule_core, rule_self, rule_index, rule_order, rule_once, rule_memorder, rule_tie, rule_start, c07.rule_edge]
